@@ -4,7 +4,7 @@
 EXTENDS Isolation
 
 Trace == ndJsonDeserialize("trace.ndjson")
-VARIABLES l, bad, vacuous
+VARIABLES l, bad, vacuous, permseen, permdiff
 
 TraceNext ==
     /\ l <= Len(Trace) /\ l' = l + 1
@@ -12,9 +12,11 @@ TraceNext ==
        /\ bad' = IF ~Permitted(e.cs) /\ ~e.same THEN bad \cup {[id |-> e.id, inv |-> "Isolated", cs |-> e.cs]} ELSE bad
        \* sanity of the experiment: an allowed reference must make a difference, or the pair proves nothing
        /\ vacuous' = IF Permitted(e.cs) /\ e.same THEN vacuous \cup {[id |-> e.id, site |-> e.cs.site, form |-> e.cs.form]} ELSE vacuous
+       /\ permseen' = IF Permitted(e.cs) /\ Honoured(e.cs) THEN permseen \cup {[site |-> e.cs.site, form |-> e.cs.form]} ELSE permseen
+       /\ permdiff' = IF Permitted(e.cs) /\ ~e.same THEN permdiff \cup {[site |-> e.cs.site, form |-> e.cs.form]} ELSE permdiff
     /\ UNCHANGED cs
 
-TraceInit == Init /\ l = 1 /\ bad = {} /\ vacuous = {}
-TraceSpec == TraceInit /\ [][TraceNext]_<<cs, l, bad, vacuous>>
-Result == l = Len(Trace) + 1 => PrintT(<<"RESULT", ToJson([n |-> l - 1, bad |-> bad, vacuous |-> vacuous])>>)
+TraceInit == Init /\ l = 1 /\ bad = {} /\ vacuous = {} /\ permseen = {} /\ permdiff = {}
+TraceSpec == TraceInit /\ [][TraceNext]_<<cs, l, bad, vacuous, permseen, permdiff>>
+Result == l = Len(Trace) + 1 => PrintT(<<"RESULT", ToJson([n |-> l - 1, bad |-> bad, vacuous |-> vacuous, dead |-> permseen \ permdiff])>>)
 =============================================================================
